@@ -157,6 +157,21 @@ func c03Spaces(tier string) []*explore.Space {
 			}
 		}
 	}
+	// positional child steps INSIDE a predicate: re-evaluated for every candidate
+	// (several candidates lead to the same parent)
+	var c4 []hostCase
+	for _, h := range []gen.Step{gen.Ch("*"), gen.Ch("node()"), gen.St("descendant", "*"), gen.St("descendant-or-self", "node()")} {
+		for _, p := range []gen.Expr{gen.N(1), gen.N(2), gen.F("last"), gen.B("<", gen.F("position"), gen.N(2)), gen.B("=", gen.F("position"), gen.F("last"))} {
+			inner := []gen.Expr{
+				relPath(gen.DotDot(), gen.Ch("*", p)), relPath(gen.Ch("*", p)), relPath(gen.Ch("*"), gen.Ch("*", p)), gen.AbsP(gen.Ch("*"), gen.Ch("*", p)), relPath(gen.Dot(), gen.DSlash(), gen.Ch("*", p)),
+				gen.AbsP(gen.DSlash(), gen.Ch("*", p)), relPath(gen.DotDot(), gen.Ch("node()", p)), relPath(gen.St("ancestor", "*"), gen.Ch("*", p)),
+			}
+			for _, in := range inner {
+				c4 = append(c4, hostCase{relPath(withPred(h, in)), relPath(h)}, hostCase{relPath(withPred(h, gen.B("=", relPath(gen.Dot()), in))), relPath(h)},
+					hostCase{relPath(withPred(h, gen.F("not", in))), relPath(h)}, hostCase{relPath(withPred(h, gen.B(">", gen.F("count", in), gen.N(0)))), relPath(h)})
+			}
+		}
+	}
 	// (F)[n] for a flat path or a single descendant step F
 	var c3 []hostCase
 	flats := []*gen.Path{
@@ -180,6 +195,8 @@ func c03Spaces(tier string) []*explore.Space {
 			hostSpace("Pos1xT4", "prefix/child-step[positional] x T(<=4)", c1, func() []*doc.Tree { return uniT(4) }, "C03"),
 			hostSpace("Pos2xM2-3", "child-step[positional][boolean]{1,2} x M(2,3)", c2, func() []*doc.Tree { return uniM(2, 3) }, "C03"),
 			hostSpace("Pos3xM2-3", "(F)[n] x M(2,3)", c3, func() []*doc.Tree { return uniM(2, 3) }, "C03"),
+			hostSpace("Pos4xM2-3", "positional child steps inside a predicate x M(2,3)", c4, func() []*doc.Tree { return uniM(2, 3) }, "C03"),
+			hostSpace("Pos4xT4", "positional child steps inside a predicate x T(<=4)", c4, func() []*doc.Tree { return uniT(4) }, "C03"),
 			hostSpace("Pos3xT5", "(F)[n] x T(<=5)", c3, func() []*doc.Tree { return uniT(5) }, "C03"),
 		}
 	}
@@ -188,6 +205,8 @@ func c03Spaces(tier string) []*explore.Space {
 		hostSpace("Pos1xT3", "prefix/child-step[positional] x T(<=3)", c1, func() []*doc.Tree { return uniT(3) }, "C03"),
 		hostSpace("Pos2xM2-2", "child-step[positional][boolean]{1,2} x M(2,2)", c2, func() []*doc.Tree { return uniM(2, 2) }, "C03"),
 		hostSpace("Pos3xM2-2", "(F)[n] x M(2,2)", c3, func() []*doc.Tree { return uniM(2, 2) }, "C03"),
+		hostSpace("Pos4xM2-2", "positional child steps inside a predicate x M(2,2)", c4, func() []*doc.Tree { return uniM(2, 2) }, "C03"),
+		hostSpace("Pos4/3xT3", "fixed stratum (every 3rd) of positional child steps inside a predicate x T(<=3)", strideCases(c4, 3), func() []*doc.Tree { return uniT(3) }, "C03"),
 		hostSpace("Pos3xT3", "(F)[n] x T(<=3)", c3, func() []*doc.Tree { return uniT(3) }, "C03"),
 	}
 }
